@@ -20,6 +20,7 @@ func genC10(r *h.Rng, tier string, idx int) *h.Plan {
 	p := &h.Plan{Cfg: map[string]interface{}{}}
 	p.Cfg["state"] = r.Pick([]string{"indexed", "linear"})
 	p.Cfg["storage"] = "mem"
+	p.Cfg["battery_order"] = r.Pick([]string{"get-search-dispatch", "dispatch-search-get", "search-dispatch-get", "dispatch-get-search"})
 	withParent := r.Bool()
 	locs := []string{"L"}
 	if withParent {
